@@ -8,7 +8,7 @@ from beziers.point import Point
 
 ID = "C06"
 TOPICS = ["Inter", "Box", "Eval", "Roots"]
-LEAN_TARGETS = ["BezierVerif.Props.C06"]
+LEAN_TARGETS = ["BezierVerif.Props.C06", "BezierVerif.Props.C06L"]
 TV_DEFS = ["cubic_hasLoop", "bbox_overlaps", "bbox_area"]
 RULE = ("(quadratic | cubic, quadratic | cubic) pairs with control points in a common +-100 .. +-1000 window (int, grid, dyadic, float families, arches, elevated); "
         "reference crossings by subdivision with control-polygon boxes + Newton; a pair is in the quantifier's domain when every crossing is transversal "
@@ -18,13 +18,13 @@ RULE = ("(quadratic | cubic, quadratic | cubic) pairs with control points in a c
         "or a loop; distinct = distinct pair / path")
 UNPROVED = ["the real bounding box encloses its piece only up to C02's bands (extremes in the first/last 1 % may protrude): enclosure is a hypothesis of cc_complete and is sampled",
             "termination depth against the 1e-3 area threshold, and the 0.2 % tolerance arithmetic (boxes of area < 1e-3 are small relative to the extent only for non-thin boxes: K3) — sampled",
-            "hasLoop's canonical-form algebra (loop_params): sampled against the exact double-point equations"]
+            "that hasLoop answers a pair for EVERY cubic with a double point (completeness of the canonical-form test): sampled against the exact double-point equations; soundness is proved (loop_params)"]
 ASSUMPTIONS = ["box encloses piece (see above)", "math.sqrt real"]
 LEVEL_TEXT = ("theorems for every environment (evaluation, halving, box, overlap, smallness, key): cc_complete (if every box encloses its piece then every common point of the "
               "two curves is reported, before and after the duplicate filter at every level, within half a terminal range in both parameters — ranges_halve: a terminal "
               "range at depth k has length 2^-k), dedupe_first_kept / dedupe_keeps_far (two reports whose first parameters are 0.02 or more apart never share a two-decimal "
               "key; the first report of every key survives), cc_ranges (every reported parameter is the midpoint of a sub-range: inside [0,1]), segEnv_split (the real halving "
-              "retraces the curve: C01), overlap_of_common_point, phantom_counterexample (K3); model tied to _curve_curve_intersections_t by exact comparison of the reported pairs")
+              "retraces the curve: C01), overlap_of_common_point, phantom_counterexample (K3), loop_params (regenerated hasLoop, real sqrt: whenever it returns (t1, t2) the curve has the same point at both and t1 != t2); model tied to _curve_curve_intersections_t by exact comparison of the reported pairs")
 LEVEL_NOTE = "trusted: Lean kernel + Mathlib, axioms {propext, Classical.choice, Quot.sound}, translator (hasLoop, box predicates), hand model Model/CC.lean (correspondence per run)"
 TECHNIQUE = "hand model of the recursive subdivision over an abstract environment; induction on the recursion depth; list lemmas for the duplicate filter"
 
